@@ -4,8 +4,8 @@ From Coq Require Extraction ExtrOcamlBasic.
 From Coq Require Import String.
 From Coq Require Import List.
 From Falco Require Import Base.Bytes Gen.TokenTypes Model.ParseKinds Gen.ParserTables
-  Model.ParseBase Model.Ast Model.ParseLit Model.ParseExpr Model.ParseStmt Model.ParseDecl.
+  Model.ParseBase Model.Ast Model.ParseLit Model.ParseExpr Model.ParseStmt Model.ParseDecl Model.ParseComments.
 Definition tname_b (t : ttype) : list byte := s2b (tname t).
 Extraction Language OCaml.
 Extraction "parse_model.ml" parse_vcl parse_snippet parse_vcl_or_snippet parse_expression
-  n2b b2n all_ttypes tname_b.
+  n2b b2n all_ttypes tname_b read_peek_stream.
